@@ -159,6 +159,8 @@ class RefDateAxis(RefAxis):
                     return ('multi', [])
                 stop = m[-1] + 1
             return ('multi', list(range(self.n))[slice(start, stop, key.step)])
+        if isinstance(key, np.ndarray):
+            key = list(key)         # an array of dates (of any unit) is a list of labels: matches per key, in key order
         if isinstance(key, list):
             out = []
             for k in key:
